@@ -20,6 +20,14 @@ MAX_BLOCKS = 400
 MAX_DEPTH = 3
 
 
+def load_sigs():
+    try:
+        with open(SIGS) as fh:
+            return json.load(fh)
+    except OSError:
+        return {}
+
+
 def load_vocab():
     with open(VOCAB) as fh:
         return set(json.load(fh))
@@ -385,6 +393,173 @@ def split_arms(raw, max_blocks=1500):
     return out
 
 
+SIGS = os.path.join(os.path.dirname(os.path.abspath(__file__)), "signatures.json")
+
+
+def signatures_of(prog):
+    return {strip_generics(b.path): [b.local_ty(i) for i in range(1, b.arg_count + 1)] for b in prog.bodies if b.kind in ("fn", "assoc_fn")}
+
+
+def _remap_body(raw, f):
+    """renumber every local of a raw body with f(old) -> new (locals list is NOT touched)"""
+    def pl(p):
+        q = {"l": f(p["l"]), "p": []}
+        for e in p["p"]:
+            if isinstance(e, dict) and "index" in e:
+                e = dict(e, index=f(e["index"]))
+            q["p"].append(e)
+        return q
+
+    def op(o):
+        if o is None:
+            return o
+        if "copy" in o:
+            return {"copy": pl(o["copy"])}
+        if "move" in o:
+            return {"move": pl(o["move"])}
+        return o
+
+    def rv(r):
+        r = copy.deepcopy(r)
+        if "use" in r:
+            r["use"] = op(r["use"])
+        elif "ref" in r:
+            r["ref"] = pl(r["ref"])
+        elif "rawptr" in r:
+            r["rawptr"] = pl(r["rawptr"])
+        elif "cast" in r:
+            r["cast"]["op"] = op(r["cast"]["op"])
+        elif "discr" in r:
+            r["discr"] = pl(r["discr"])
+        elif "bin" in r:
+            r["bin"]["l"], r["bin"]["r"] = op(r["bin"]["l"]), op(r["bin"]["r"])
+        elif "un" in r:
+            r["un"]["x"] = op(r["un"]["x"])
+        elif "agg" in r:
+            r["agg"]["ops"] = [op(o) for o in r["agg"]["ops"]]
+        return r
+    for blk in raw["blocks"]:
+        for st in blk["stmts"]:
+            if "place" in st:
+                st["place"] = pl(st["place"])
+            if "rv" in st:
+                st["rv"] = rv(st["rv"])
+        t = blk["term"]
+        k = t["k"]
+        if k == "switch":
+            t["op"] = op(t["op"])
+        elif k == "call":
+            if "copy" in t["func"] or "move" in t["func"]:
+                t["func"] = op(t["func"])
+            t["args"] = [op(a) for a in t["args"]]
+            t["dest"] = pl(t["dest"])
+        elif k == "drop":
+            t["place"] = pl(t["place"])
+        elif k == "assert":
+            t["cond"] = op(t["cond"])
+    if raw.get("thread_seeds"):
+        raw["thread_seeds"] = [f(x) for x in raw["thread_seeds"]]
+
+
+def unbundle_params(raws, facts, sigs):
+    """Parameter un-bundling (a semantics-preserving normalisation): a function of the pinned tree whose parameters
+    (.., B, C, D, ..) have been bundled into one by-value crate struct S{b: B, c: C, d: D} is given its pinned signature
+    back in the view: the struct parameter is replaced by one parameter per field (in the pinned order), the struct value
+    is rebuilt by an aggregate at entry (so whole-value uses keep working), and every direct call site passes the fields
+    of the argument instead of the argument. Returns the list of functions rewritten."""
+    adts = {a["path"]: a for a in facts["adts"]}
+    done = []
+    for path, raw in list(raws.items()):
+        if raw.get("kind") not in ("fn", "assoc_fn"):
+            continue
+        ps = sigs.get(strip_generics(path))
+        n = raw["arg_count"]
+        cs = [raw["locals"][i]["ty"] for i in range(1, n + 1)]
+        if not ps or len(cs) >= len(ps):
+            continue
+        hit = None
+        for k in range(len(cs)):
+            adt = adts.get(cs[k])
+            if cs[:k] != ps[:k] or adt is None or adt.get("kind") != "Struct":
+                continue
+            fields = adt["variants"][0]["fields"]
+            m = len(fields)
+            if len(cs) - 1 + m != len(ps) or cs[k + 1:] != ps[k + m:]:
+                continue
+            want = ps[k:k + m]
+            ftys = [f["ty"] for f in fields]
+            if sorted(want) != sorted(ftys) or len(set(want)) != m:
+                continue
+            hit = (k, m, fields, [ftys.index(w) for w in want])
+            break
+        if hit is None:
+            continue
+        k, m, fields, order = hit
+        P = k + 1
+        # the function must only be called directly (no fn-pointer uses)
+        used_as_value = False
+        for r2 in raws.values():
+            for blk in r2["blocks"]:
+                for st in blk["stmts"]:
+                    if st["k"] == "assign":
+                        for o in mir.rv_operands(st["rv"]):
+                            fr = op_fn(o)
+                            if fr and strip_generics(fr.get("resolved") or fr["path"]) == strip_generics(path):
+                                used_as_value = True
+        if used_as_value:
+            continue
+        nloc_old = len(raw["locals"])
+        newP = nloc_old + m - 1
+
+        def f(l, P=P, m=m, newP=newP):
+            if l < P:
+                return l
+            if l == P:
+                return newP
+            return l + m - 1
+        _remap_body(raw, f)
+        old_locals = raw["locals"]
+        new_locals = old_locals[:P]
+        for j in range(m):
+            fld = fields[order[j]]
+            new_locals.append({"ty": fld["ty"], "name": fld["name"]})
+        new_locals += old_locals[P + 1:]
+        new_locals.append({"ty": old_locals[P]["ty"], "name": old_locals[P].get("name")})
+        raw["locals"] = new_locals
+        raw["arg_count"] = n + m - 1
+        # rebuild the struct value at entry
+        ops = [None] * m
+        for j in range(m):
+            ops[order[j]] = {"copy": {"l": P + j, "p": []}}
+        raw["blocks"][0]["stmts"].insert(0, {"k": "assign", "place": {"l": newP, "p": []}, "line": raw["line"], "exp": None, "inl": True,
+                                             "rv": {"agg": {"kind": "adt", "adt": adts_key(adts, cs[k]), "variant": 0, "vname": adts[cs[k]]["variants"][0]["name"],
+                                                            "fields": [fl["name"] for fl in fields], "ops": ops}}})
+        # call sites
+        for r2 in raws.values():
+            for blk in r2["blocks"]:
+                t = blk["term"]
+                if t["k"] != "call":
+                    continue
+                fr = op_fn(t["func"])
+                if not fr or strip_generics(fr.get("resolved") or fr["path"]) != strip_generics(path) or len(t["args"]) != n:
+                    continue
+                a = t["args"][k]
+                pl = mir.op_place(a)
+                if pl is None:
+                    continue
+                newargs = []
+                for j in range(m):
+                    fld = fields[order[j]]
+                    newargs.append({"copy": {"l": pl["l"], "p": list(pl["p"]) + [{"f": order[j], "ty": fld["ty"], "name": fld["name"], "adt": cs[k]}]}})
+                t["args"] = t["args"][:k] + newargs + t["args"][k + 1:]
+        done.append(strip_generics(path))
+    return done
+
+
+def adts_key(adts, ty):
+    return ty
+
+
 def inlined_facts(facts, vocab=None):
     """returns (facts2, info) where facts2 is the helper-inlined view, or (None, info) when there is nothing to inline"""
     vocab = vocab if vocab is not None else load_vocab()
@@ -400,7 +575,11 @@ def inlined_facts(facts, vocab=None):
                 raws[path] = r2
                 info["arm_split"].append(mir.strip_generics(path))
     if not helpers and not info["arm_split"]:
-        return None, info
+        sigs = load_sigs()
+        info["unbundled"] = unbundle_params(raws, facts, sigs) if sigs else []
+        if not info["unbundled"]:
+            return None, info
+        return dict(facts, bodies=list(raws.values())), info
     if not helpers:
         return dict(facts, bodies=list(raws.values())), info
     for depth in range(MAX_DEPTH):
@@ -427,6 +606,8 @@ def inlined_facts(facts, vocab=None):
                 changed = True
         if not changed:
             break
+    sigs = load_sigs()
+    info["unbundled"] = unbundle_params(raws, facts, sigs) if sigs else []
     # separate the paths that the helpers' several returns merged (only in bodies that received an inlining)
     for path in list(raws):
         if any(b.get("term", {}).get("inlined") for b in raws[path]["blocks"]):
